@@ -54,6 +54,8 @@ type Ctx struct {
 	// (unbounded recursion or looping inside the container shows up as event growth).
 	EventBudget int
 	OverBudget  bool
+	// Quiet: the harness is wrapping up an over-budget run; logging no longer panics.
+	Quiet bool
 
 	// DupSite is set if two tasks were parked under the same site key (a harness bug: the
 	// release order would not be a function of the picks).
@@ -86,12 +88,14 @@ func (c *Ctx) Log(kind, subj, detail string) int {
 	c.seq++
 	s := c.seq
 	c.events = append(c.events, Event{Seq: s, Kind: kind, Subj: subj, Detail: detail})
-	over := c.EventBudget > 0 && s > c.EventBudget && !c.OverBudget
+	over := c.EventBudget > 0 && s > c.EventBudget && !c.Quiet
 	if over {
 		c.OverBudget = true
 	}
 	c.mu.Unlock()
 	if over {
+		// every further event of a run that exceeded its budget aborts the current call
+		// chain again (a recovered first panic must not let the runaway continue)
 		panic(ErrBudget)
 	}
 	return s
